@@ -208,7 +208,7 @@ ASSUMPTIONS = [
 ]
 
 
-def facet(ck, tier, seed, invs, prefix):
+def facet(ck, tier, seed, invs, prefix, conf_kinds=None, report_hang=False):
     """The process-pool downloader's part of another property: the same
     executions and the same trace specification, with ``invs`` as the
     invariants; a violated invariant is reported as clause prefix+name."""
@@ -217,7 +217,8 @@ def facet(ck, tier, seed, invs, prefix):
     geos = [(2, (3, 1)), (1, (2,)), (2, (1, 2))]
     if thorough:
         geos += [(3, (4,)), (2, (2, 2)), (1, (1, 3))]
-    n = traces_part(ck, rng, geos, thorough, invs=invs, prefix=prefix)
+    n = traces_part(ck, rng, geos, thorough, invs=invs, prefix=prefix,
+                    conf_kinds=conf_kinds, report_hang=report_hang)
     ck.coverage.setdefault('families', {})['process-pool'] = n
     for a in ASSUMPTIONS:
         if a not in ck.assumptions:
@@ -246,7 +247,8 @@ def model_part(ck, thorough):
                              'cex': r.cex[-2500:]})
 
 
-def traces_part(ck, rng, geos, thorough, invs=None, prefix=''):
+def traces_part(ck, rng, geos, thorough, invs=None, prefix='', conf_kinds=None,
+                report_hang=False):
     # 2. traces of the real code
     total = 0
     for geo in geos:
@@ -267,9 +269,10 @@ def traces_part(ck, rng, geos, thorough, invs=None, prefix=''):
             ck.distinct(r['trace']['ev'])
             if r['failure']:
                 sc = jobs[r['jid']][0]
-                if invs is not None:
+                if invs is not None and not report_hang:
                     continue
-                ck.violation('C19_EveryDownloadEventuallyDone', {
+                ck.violation((prefix + 'NoDeadlock') if invs is not None
+                             else 'C19_EveryDownloadEventuallyDone', {
                     'component': 'processpool', 'detail': r['failure'],
                     'info': r['failure_info'], 'scenario': sc},
                     replay={'kind': 'c19', 'scenario': sc,
@@ -298,8 +301,9 @@ def traces_part(ck, rng, geos, thorough, invs=None, prefix=''):
                     ck.machinery_errors.append('trace without verdict')
                     break
                 if rc[0] <= rc[1] and not rr['failure']:
-                    fs_kinds = ('w_rename', 'w_remove', 'w_done', 'alloc', 'snap', 'sub_done')
-                    if invs is not None and prefix.startswith('C06') and \
+                    fs_kinds = conf_kinds or (
+                        'w_rename', 'w_remove', 'w_done', 'alloc', 'snap', 'sub_done')
+                    if invs is not None and (prefix.startswith('C06') or conf_kinds) and \
                             rc[0] <= len(rr['trace']['ev']) and \
                             rr['trace']['ev'][rc[0] - 1].get('k') in fs_kinds:
                         # the order of allocate / rename / remove / notify_done
